@@ -1,7 +1,802 @@
-//! C28 — not implemented yet.
-use vcore::Ctx;
+//! C28 — the pretty printer keeps content and records true anchors.
+//!
+//! Generator: `Doc` trees assembled exactly the way the emitter's / formatter's
+//! buffer helpers assemble them (`doc::concat`, `group`, `indent_by(1, _)`,
+//! `force_flat`, `line`/`softline`, `Hardline`, `DedentHardline(level)` after an
+//! indent block, token = `Text`/`Anchored` [+ aligner pad] [+ trailing
+//! `Comments`, possibly under `Indent(1)`], `if_break(text)` at the end of a
+//! list [+ the comma's trailing comments]) in two flavours — *emitter*
+//! (anchored tokens, anchored comments, `DedentHardline`, no break-only text)
+//! and *formatter* (plain tokens, unanchored comments, break-only text) —
+//! times generated `RenderOpts`.  Every text atom is unique.
+//!
+//! Oracle (independent of the renderer; it only reads the rendered string):
+//!  (a) skipping white space, the output is exactly the sequence of the
+//!      document's Text / Anchored / Comment leaves in document order, with
+//!      break-only leaves optionally in between (nothing dropped, invented or
+//!      reordered);
+//!  (b) every group / force-flat region / the root owns at least one witness
+//!      `text Line text`; the region is *broken* iff the witness rendered as a
+//!      newline (all witnesses of one region must agree); a break-only text
+//!      (and a break-only pad between two adjacent atoms) is present iff its
+//!      region is broken;
+//!  (c) the recorded anchors are, in order, the anchored leaves, each with the
+//!      1-based line and *character* column at which its text starts in the
+//!      output (recomputed from the byte offset found in (a)).
 
-pub fn run(_ctx: &Ctx) {
-    println!("INCONCLUSIVE property=C28: check not implemented");
-    std::process::exit(2);
+use std::rc::Rc;
+use vcore::{CaseCfg, Ctx, Draw, Outcome, hash_str, json};
+use veryl_pretty::doc::{self, CommentDoc, Doc};
+use veryl_pretty::render::{RenderOpts, render, render_with_anchors};
+
+/// Root cause of the listed finding: `render_comments` resets the column to 0
+/// after a block comment that contains a newline.
+const SIG_ML_COMMENT: &str = "anchor-column:after-multiline-block-comment";
+
+const BODIES: &[&str] = &["", "", "x", " y", "é", "日本語", "🦀", "→ z w", "ß ß"];
+
+#[derive(Clone, Copy, PartialEq, Eq, Debug)]
+enum Flavour {
+    Emitter,
+    Formatter,
+}
+
+#[derive(Clone, Copy, PartialEq, Eq, Debug)]
+enum AtomKind {
+    Text,
+    Anchored,
+    Comment,
+}
+
+impl AtomKind {
+    fn name(self) -> &'static str {
+        match self {
+            AtomKind::Text => "text",
+            AtomKind::Anchored => "anchored",
+            AtomKind::Comment => "comment",
+        }
+    }
+}
+
+/// What lies between an atom and the next atom of the event list.
+#[derive(Clone, Copy, Debug)]
+enum After {
+    Nothing,
+    Witness { cont: usize, sep: &'static str },
+    BreakPad { cont: usize, width: u32 },
+}
+
+#[derive(Clone, Debug)]
+enum Ev {
+    Atom {
+        text: String,
+        kind: AtomKind,
+        anchor: Option<(u32, u32)>,
+        after: After,
+    },
+    IfBreak {
+        text: String,
+        cont: usize,
+    },
+}
+
+#[derive(Clone, Copy, PartialEq, Eq, Debug)]
+enum ContKind {
+    Root,
+    Group,
+    ForceFlat,
+}
+
+struct Cont {
+    kind: ContKind,
+    broken: Option<bool>,
+}
+
+#[derive(Default)]
+struct Feat {
+    line_comment: bool,
+    block_comment: bool,
+    ml_comment: bool,
+    ml_token: bool,
+    multibyte: bool,
+    dedent_hardline: bool,
+    force_flat: bool,
+    pad: bool,
+    if_flat_pad: bool,
+    break_pad: bool,
+    if_break: bool,
+    indented_comment: bool,
+    depth: usize,
+}
+
+struct Gen<'a> {
+    d: &'a mut Draw,
+    flavour: Flavour,
+    next_id: u32,
+    budget: i32,
+    max_depth: usize,
+    events: Vec<Ev>,
+    conts: Vec<Cont>,
+    feat: Feat,
+}
+
+impl Gen<'_> {
+    fn id(&mut self) -> u32 {
+        self.next_id += 1;
+        self.next_id
+    }
+
+    fn body(&mut self) -> &'static str {
+        let b = *self.d.pick(BODIES);
+        if !b.is_ascii() {
+            self.feat.multibyte = true;
+        }
+        b
+    }
+
+    fn set_after(&mut self, after: After) {
+        if let Some(Ev::Atom { after: a, .. }) = self.events.last_mut() {
+            *a = after;
+        }
+    }
+
+    /// A token the way `push_token` emits it: anchored when it has a source
+    /// location (emitter), plain text otherwise.
+    fn token(&mut self, out: &mut Vec<Doc>, prefix: &str, suffix: &str) {
+        self.budget -= 1;
+        let id = self.id();
+        let body = self.body();
+        let anchored = self.flavour == Flavour::Emitter && self.d.chance(3, 4);
+        // a token whose text spans lines (embed content, multi-line strings)
+        let ml = self.d.chance(1, 100);
+        let mut text = if ml {
+            self.feat.ml_token = true;
+            format!("{prefix}{id}{body}\n  m{id}{suffix}")
+        } else {
+            format!("{prefix}{id}{body}{suffix}")
+        };
+        if anchored {
+            let (sl, sc) = (id, 1 + id % 7);
+            self.events.push(Ev::Atom {
+                text: text.clone(),
+                kind: AtomKind::Anchored,
+                anchor: Some((sl, sc)),
+                after: After::Nothing,
+            });
+            out.push(doc::anchored(text, sl, sc));
+        } else {
+            // `str()` texts may carry their own blanks: " = ", ") ? ("
+            if !ml && self.d.chance(1, 10) {
+                text = format!(" {text} ");
+            }
+            self.events.push(Ev::Atom {
+                text: text.clone(),
+                kind: AtomKind::Text,
+                anchor: None,
+                after: After::Nothing,
+            });
+            out.push(doc::text(text));
+        }
+    }
+
+    /// `process_comment` / `emit_trailing_comments`
+    fn comments(&mut self, out: &mut Vec<Doc>) {
+        let n = 1 + self.d.weighted(&[6, 2, 1]);
+        let mut cs = Vec::new();
+        for _ in 0..n {
+            self.budget -= 1;
+            let id = self.id();
+            let body = self.body();
+            let is_line = self.d.bool();
+            let text = if is_line {
+                self.feat.line_comment = true;
+                format!("//c{id} {body}").trim_end().to_string()
+            } else if self.d.chance(1, 12) {
+                self.feat.ml_comment = true;
+                let tail = *self.d.pick(&["*/", "  y */", " 日本 */", "\n */"]);
+                format!("/*c{id} {body}\n{tail}")
+                    .lines()
+                    .map(|l| l.trim_end())
+                    .collect::<Vec<_>>()
+                    .join("\n")
+            } else {
+                self.feat.block_comment = true;
+                format!("/*c{id} {body}*/")
+            };
+            let anchor = if self.flavour == Flavour::Emitter {
+                Some((id, 1 + id % 5))
+            } else {
+                None
+            };
+            self.events.push(Ev::Atom {
+                text: text.clone(),
+                kind: AtomKind::Comment,
+                anchor,
+                after: After::Nothing,
+            });
+            cs.push(CommentDoc {
+                text: Rc::<str>::from(text.as_str()),
+                leading_newlines: self.d.weighted(&[5, 3, 1, 1]) as u32,
+                is_line_comment: is_line,
+                src_line: anchor.map(|a| a.0).unwrap_or(0),
+                src_column: anchor.map(|a| a.1).unwrap_or(0),
+            });
+        }
+        let mut node = doc::comments(cs);
+        if self.d.chance(1, 4) {
+            self.feat.indented_comment = true;
+            node = doc::indent_by(1, node);
+        }
+        out.push(node);
+    }
+
+    fn witness(&mut self, out: &mut Vec<Doc>, cont: usize) {
+        let sep: &'static str = if self.d.bool() { " " } else { "" };
+        self.token(out, "<w", "");
+        // the witness tokens never carry outer blanks: undo the decoration
+        self.fix_plain(out);
+        self.set_after(After::Witness { cont, sep });
+        out.push(if sep.is_empty() { doc::softline() } else { doc::line() });
+        self.token(out, "w", ">");
+        self.fix_plain(out);
+    }
+
+    /// Strip the optional outer blanks of the last token (probes measure the
+    /// exact gap between two atoms).
+    fn fix_plain(&mut self, out: &mut [Doc]) {
+        if let Some(Ev::Atom { text, kind: AtomKind::Text, .. }) = self.events.last_mut() {
+            let t = text.trim_matches(' ').to_string();
+            if t != *text {
+                *text = t.clone();
+                if let Some(last) = out.last_mut() {
+                    *last = doc::text(t);
+                }
+            }
+        }
+    }
+
+    fn new_cont(&mut self, kind: ContKind) -> usize {
+        self.conts.push(Cont { kind, broken: None });
+        self.conts.len() - 1
+    }
+
+    /// A region (group / force-flat / root) body: `n` steps with a witness at a
+    /// generated position.
+    fn region_body(&mut self, depth: usize, cont: usize, n: usize) -> Doc {
+        let mut out = Vec::new();
+        let wpos = self.d.below_usize(n + 1);
+        for i in 0..=n {
+            if i == wpos {
+                self.witness(&mut out, cont);
+            }
+            if i < n {
+                self.step(&mut out, depth, cont);
+            }
+        }
+        doc::concat(out)
+    }
+
+    fn plain_body(&mut self, depth: usize, cont: usize, n: usize, out: &mut Vec<Doc>) {
+        for _ in 0..n {
+            self.step(out, depth, cont);
+        }
+    }
+
+    fn steps(&mut self) -> usize {
+        if self.budget <= 0 {
+            0
+        } else {
+            self.d.usize_in(0, 5)
+        }
+    }
+
+    fn step(&mut self, out: &mut Vec<Doc>, depth: usize, cont: usize) {
+        self.feat.depth = self.feat.depth.max(depth);
+        let nest_ok = depth < self.max_depth && self.budget > 0;
+        let w_nest = if nest_ok { 5 } else { 0 };
+        let fmt = self.flavour == Flavour::Formatter;
+        let k = self.d.weighted(&[
+            10,                       // 0 token (+pad) (+comments)
+            3,                        // 1 blanks
+            5,                        // 2 free line / softline
+            3,                        // 3 hardline
+            3,                        // 4 witness
+            w_nest * 2,               // 5 group
+            w_nest,                   // 6 nest
+            w_nest,                   // 7 indent block + dedent hardline
+            w_nest / 2,               // 8 force_flat
+            if fmt { 4 } else { 0 },  // 9 break-only text
+            3,                        // 10 break-only pad probe
+        ]);
+        match k {
+            0 => {
+                self.token(out, "T", ".");
+                // aligner padding after the token
+                match self.d.weighted(&[6, 1, 1, 1]) {
+                    1 => {
+                        self.feat.pad = true;
+                        out.push(doc::pad(self.d.range(1, 6) as u32));
+                    }
+                    2 => {
+                        // unprobed break-only pad
+                        out.push(doc::if_break_pad(self.d.range(1, 6) as u32));
+                    }
+                    3 => {
+                        self.feat.if_flat_pad = true;
+                        out.push(doc::if_flat_pad(self.d.range(1, 6) as u32));
+                    }
+                    _ => {}
+                }
+                if self.d.chance(1, 4) {
+                    self.comments(out);
+                }
+            }
+            1 => out.push(doc::space(self.d.usize_in(1, 4))),
+            2 => out.push(if self.d.bool() { doc::line() } else { doc::softline() }),
+            3 => out.push(doc::hard()),
+            4 => self.witness(out, cont),
+            5 => {
+                let c = self.new_cont(ContKind::Group);
+                let n = self.steps();
+                let inner = self.region_body(depth + 1, c, n);
+                // `group_nest`: group(nest(..)) is the common shape
+                let inner = if self.d.chance(1, 3) { doc::indent_by(1, inner) } else { inner };
+                out.push(doc::group(inner));
+            }
+            6 => {
+                let n = self.steps();
+                let mut inner = Vec::new();
+                self.plain_body(depth + 1, cont, n, &mut inner);
+                out.push(doc::indent_by(1, doc::concat(inner)));
+            }
+            7 => {
+                // newline_push .. newline_pop
+                let n = self.steps();
+                let mut inner = vec![doc::hard()];
+                self.plain_body(depth + 1, cont, n, &mut inner);
+                out.push(doc::indent_by(1, doc::concat(inner)));
+                if fmt {
+                    out.push(doc::hard());
+                } else {
+                    self.feat.dedent_hardline = true;
+                    out.push(Doc::DedentHardline(self.d.range(1, 4) as u32));
+                }
+            }
+            8 => {
+                self.feat.force_flat = true;
+                let c = self.new_cont(ContKind::ForceFlat);
+                let n = self.steps();
+                let inner = self.region_body(depth + 1, c, n);
+                out.push(doc::force_flat(inner));
+            }
+            9 => {
+                self.feat.if_break = true;
+                self.budget -= 1;
+                let id = self.id();
+                let text = format!("b{id},");
+                self.events.push(Ev::IfBreak { text: text.clone(), cont });
+                out.push(doc::if_break(text));
+                if self.d.chance(1, 4) {
+                    self.comments(out);
+                }
+            }
+            _ => {
+                self.feat.break_pad = true;
+                let width = self.d.range(1, 6) as u32;
+                self.token(out, "P", "");
+                self.fix_plain(out);
+                self.set_after(After::BreakPad { cont, width });
+                out.push(doc::if_break_pad(width));
+                self.token(out, "p", ":");
+                self.fix_plain(out);
+            }
+        }
+    }
+}
+
+struct Case {
+    doc: Doc,
+    opts: RenderOpts,
+    flavour: Flavour,
+    events: Vec<Ev>,
+    conts: Vec<Cont>,
+    feat: Feat,
+}
+
+fn gen_case(d: &mut Draw, thorough: bool) -> Case {
+    let flavour = if d.bool() { Flavour::Formatter } else { Flavour::Emitter };
+    let opts = RenderOpts {
+        max_width: match d.weighted(&[8, 2, 1, 1]) {
+            0 => d.usize_in(0, 60),
+            1 => d.usize_in(61, 140),
+            2 => 0,
+            _ => 100_000,
+        },
+        indent_width: match d.weighted(&[3, 3, 2]) {
+            0 => 4,
+            1 => 2,
+            _ => d.usize_in(0, 8),
+        },
+        newline: if d.chance(1, 4) { "\r\n" } else { "\n" },
+        // formatter: true, emitter: false; the other combination less often
+        strip_trailing_whitespace: (flavour == Flavour::Formatter) != d.chance(1, 5),
+    };
+    let mut g = Gen {
+        flavour,
+        next_id: 0,
+        budget: if thorough { d.range(4, 120) as i32 } else { d.range(4, 50) as i32 },
+        max_depth: if thorough { 8 } else { d.usize_in(2, 8) },
+        events: Vec::new(),
+        conts: vec![Cont { kind: ContKind::Root, broken: None }],
+        feat: Feat::default(),
+        d,
+    };
+    let n = g.d.usize_in(1, 8);
+    let doc = g.region_body(0, 0, n);
+    Case { doc, opts, flavour, events: g.events, conts: g.conts, feat: g.feat }
+}
+
+/// Hand-written documents (reproducers): a small JSON notation.
+/// `{"t":"text","s":..}` `{"t":"anch","s":..,"l":..,"c":..}` `{"t":"line","sep":" "|""}`
+/// `{"t":"hard"}` `{"t":"dedent","n":..}` `{"t":"pad","n":..}` `{"t":"group"|"indent"|"ff","d":[..]}`
+/// `{"t":"comments","cs":[{"s":..,"nl":..,"line":bool,"l":..,"c":..}]}`
+fn explicit_doc(v: &serde_json::Value, events: &mut Vec<Ev>) -> Doc {
+    let list = |v: &serde_json::Value, events: &mut Vec<Ev>| -> Doc {
+        doc::concat(v.as_array().map(|a| a.iter().map(|x| explicit_doc(x, events)).collect()).unwrap_or_default())
+    };
+    if v.is_array() {
+        return list(v, events);
+    }
+    let s = |k: &str| v.get(k).and_then(|x| x.as_str()).unwrap_or("").to_string();
+    let n = |k: &str| v.get(k).and_then(|x| x.as_u64()).unwrap_or(0) as u32;
+    match s("t").as_str() {
+        "text" => {
+            events.push(Ev::Atom { text: s("s"), kind: AtomKind::Text, anchor: None, after: After::Nothing });
+            doc::text(s("s"))
+        }
+        "anch" => {
+            events.push(Ev::Atom { text: s("s"), kind: AtomKind::Anchored, anchor: Some((n("l"), n("c"))), after: After::Nothing });
+            doc::anchored(s("s"), n("l"), n("c"))
+        }
+        "line" => {
+            if s("sep").is_empty() { doc::softline() } else { doc::line() }
+        }
+        "hard" => doc::hard(),
+        "dedent" => Doc::DedentHardline(n("n")),
+        "pad" => doc::pad(n("n")),
+        "group" => doc::group(list(&v["d"], events)),
+        "indent" => doc::indent_by(1, list(&v["d"], events)),
+        "ff" => doc::force_flat(list(&v["d"], events)),
+        "comments" => {
+            let mut cs = vec![];
+            for c in v["cs"].as_array().cloned().unwrap_or_default() {
+                let text = c["s"].as_str().unwrap_or("").to_string();
+                let (l, col) = (c["l"].as_u64().unwrap_or(0) as u32, c["c"].as_u64().unwrap_or(0) as u32);
+                events.push(Ev::Atom {
+                    text: text.clone(),
+                    kind: AtomKind::Comment,
+                    anchor: if l != 0 && col != 0 { Some((l, col)) } else { None },
+                    after: After::Nothing,
+                });
+                cs.push(CommentDoc {
+                    text: Rc::<str>::from(text.as_str()),
+                    leading_newlines: c["nl"].as_u64().unwrap_or(0) as u32,
+                    is_line_comment: c["line"].as_bool().unwrap_or(false),
+                    src_line: l,
+                    src_column: col,
+                });
+            }
+            doc::comments(cs)
+        }
+        _ => Doc::Nil,
+    }
+}
+
+fn explicit_case(p: &serde_json::Value) -> Case {
+    let o = &p["opts"];
+    let opts = RenderOpts {
+        max_width: o["max_width"].as_u64().unwrap_or(120) as usize,
+        indent_width: o["indent_width"].as_u64().unwrap_or(4) as usize,
+        newline: if o["newline"].as_str() == Some("\r\n") { "\r\n" } else { "\n" },
+        strip_trailing_whitespace: o["strip"].as_bool().unwrap_or(false),
+    };
+    let mut events = vec![];
+    let doc = explicit_doc(&p["doc"], &mut events);
+    Case { doc, opts, flavour: Flavour::Emitter, events, conts: vec![Cont { kind: ContKind::Root, broken: None }], feat: Feat::default() }
+}
+
+fn is_ws(b: u8) -> bool {
+    matches!(b, b' ' | b'\t' | b'\r' | b'\n')
+}
+
+struct Located {
+    /// per event: byte offset of the atom's first non-blank character (None: absent break-only text / blank atom)
+    start: Vec<Option<usize>>,
+    end: Vec<Option<usize>>,
+}
+
+/// (a): the output is the leaves in order.
+fn scan(out: &str, events: &[Ev]) -> Result<Located, (String, String)> {
+    let b = out.as_bytes();
+    let mut cur = 0usize;
+    let mut start = vec![None; events.len()];
+    let mut end = vec![None; events.len()];
+    for (i, ev) in events.iter().enumerate() {
+        while cur < b.len() && is_ws(b[cur]) {
+            cur += 1;
+        }
+        match ev {
+            Ev::Atom { text, kind, .. } => {
+                let core = text.trim();
+                if core.is_empty() {
+                    continue;
+                }
+                if out[cur..].starts_with(core) {
+                    start[i] = Some(cur);
+                    cur += core.len();
+                    end[i] = Some(cur);
+                } else {
+                    let here: String = out[cur..].chars().take(30).collect();
+                    let (sig, why) = if !out.contains(core) {
+                        (format!("content:dropped-{}", kind.name()), "does not occur in the output at all")
+                    } else if out[..cur].contains(core) {
+                        (format!("content:reordered-{}", kind.name()), "was written earlier than its place in the document")
+                    } else {
+                        (format!("content:unexpected-before-{}", kind.name()), "occurs only later: something else was written in its place")
+                    };
+                    return Err((sig, format!("leaf #{i} {core:?} expected at byte {cur} (output continues {here:?}) — it {why}")));
+                }
+            }
+            Ev::IfBreak { text, .. } => {
+                if out[cur..].starts_with(text.as_str()) {
+                    start[i] = Some(cur);
+                    cur += text.len();
+                    end[i] = Some(cur);
+                }
+            }
+        }
+    }
+    while cur < b.len() && is_ws(b[cur]) {
+        cur += 1;
+    }
+    if cur < b.len() {
+        let here: String = out[cur..].chars().take(40).collect();
+        return Err(("content:invented".into(), format!("after the last leaf the output still has {here:?} at byte {cur}")));
+    }
+    Ok(Located { start, end })
+}
+
+fn locate(out: &str, pos: usize) -> (u32, u32, usize) {
+    let before = &out[..pos];
+    let line = before.bytes().filter(|c| *c == b'\n').count() as u32 + 1;
+    let ls = before.rfind('\n').map(|p| p + 1).unwrap_or(0);
+    let col = out[ls..pos].chars().count() as u32 + 1;
+    (line, col, ls)
+}
+
+struct Verdict {
+    broken_groups: usize,
+    flat_groups: usize,
+    ifbreak_present: usize,
+    ifbreak_absent: usize,
+    anchors: usize,
+    known: Option<(String, String)>,
+}
+
+fn decide(case: &mut Case, out: &str, anchors: Option<&[veryl_pretty::render::RenderedAnchor]>) -> Result<Verdict, (String, String)> {
+    let ev = &case.events;
+    let loc = scan(out, ev)?;
+
+    // next located atom after event i
+    let next_atom = |i: usize| -> Option<usize> {
+        (i + 1..ev.len()).find(|j| matches!(ev[*j], Ev::Atom { .. }))
+    };
+
+    // (b) witnesses decide which regions broke
+    for (i, e) in ev.iter().enumerate() {
+        let Ev::Atom { after: After::Witness { cont, sep }, .. } = e else { continue };
+        let j = next_atom(i).expect("witness has a second atom");
+        let (Some(a), Some(bs)) = (loc.end[i], loc.start[j]) else { continue };
+        let gap = &out[a..bs];
+        let broke = if gap.contains('\n') {
+            true
+        } else if gap == *sep {
+            false
+        } else {
+            return Err(("witness:garbled".into(), format!("a Line({sep:?}) between two texts rendered as {gap:?}: neither its flat form nor a newline")));
+        };
+        match case.conts[*cont].broken {
+            None => case.conts[*cont].broken = Some(broke),
+            Some(prev) if prev != broke => {
+                return Err((
+                    "witness:disagree".into(),
+                    format!("two Lines directly inside one {:?} region rendered differently (one as newline, one flat)", case.conts[*cont].kind),
+                ));
+            }
+            _ => {}
+        }
+    }
+    let mut v = Verdict { broken_groups: 0, flat_groups: 0, ifbreak_present: 0, ifbreak_absent: 0, anchors: 0, known: None };
+    for c in &case.conts {
+        if c.kind == ContKind::Group {
+            match c.broken {
+                Some(true) => v.broken_groups += 1,
+                Some(false) => v.flat_groups += 1,
+                None => {}
+            }
+        }
+    }
+    for (i, e) in ev.iter().enumerate() {
+        match e {
+            Ev::IfBreak { text, cont } => {
+                let Some(broken) = case.conts[*cont].broken else { continue };
+                let present = loc.start[i].is_some();
+                if present {
+                    v.ifbreak_present += 1;
+                } else {
+                    v.ifbreak_absent += 1;
+                }
+                if present != broken {
+                    let kind = case.conts[*cont].kind;
+                    return Err(if present {
+                        ("ifbreak:present-in-flat-region".into(), format!("break-only text {text:?} was written although the Line in the same {kind:?} region rendered flat"))
+                    } else {
+                        ("ifbreak:absent-in-broken-region".into(), format!("break-only text {text:?} is missing although the Line in the same {kind:?} region rendered as a newline"))
+                    });
+                }
+            }
+            Ev::Atom { after: After::BreakPad { cont, width }, text, .. } => {
+                let Some(broken) = case.conts[*cont].broken else { continue };
+                let j = next_atom(i).expect("pad probe has a second atom");
+                let (Some(a), Some(bs)) = (loc.end[i], loc.start[j]) else { continue };
+                let gap = &out[a..bs];
+                let want = if broken { " ".repeat(*width as usize) } else { String::new() };
+                if gap != want {
+                    return Err((
+                        if broken { "ifbreakpad:absent-in-broken-region" } else { "ifbreakpad:present-in-flat-region" }.into(),
+                        format!("break-only pad of {width} after {text:?}: region broken={broken}, but the gap to the next text is {gap:?}"),
+                    ));
+                }
+            }
+            _ => {}
+        }
+    }
+
+    // (c) anchors
+    if let Some(anchors) = anchors {
+        let expected: Vec<usize> = ev
+            .iter()
+            .enumerate()
+            .filter(|(_, e)| matches!(e, Ev::Atom { anchor: Some(_), .. }))
+            .map(|(i, _)| i)
+            .collect();
+        if anchors.len() != expected.len() {
+            return Err(("anchor:count".into(), format!("{} anchors recorded for {} anchored leaves", anchors.len(), expected.len())));
+        }
+        v.anchors = anchors.len();
+        let mut first_other: Option<(String, String)> = None;
+        for (a, &i) in anchors.iter().zip(expected.iter()) {
+            let Ev::Atom { text, anchor: Some((sl, sc)), kind, .. } = &ev[i] else { unreachable!() };
+            if a.text.as_ref() != text.as_str() || a.src_line != *sl || a.src_column != *sc {
+                return Err(("anchor:identity".into(), format!("anchor #{i}: recorded ({:?}, src {}:{}) but the {}-th anchored leaf is ({text:?}, src {sl}:{sc})", a.text, a.src_line, a.src_column, i)));
+            }
+            let pos = loc.start[i].expect("anchored leaf located");
+            let (line, col, ls) = locate(out, pos);
+            if a.dst_line != line {
+                first_other.get_or_insert((
+                    format!("anchor:line-{}", kind.name()),
+                    format!("{} {text:?}: anchor says line {} but the text starts on line {line} (column {col})", kind.name(), a.dst_line),
+                ));
+                continue;
+            }
+            if a.dst_column != col {
+                // the listed root cause: a block comment containing a newline ends on this line
+                let ml = ev.iter().enumerate().find(|(j, e)| {
+                    matches!(e, Ev::Atom { kind: AtomKind::Comment, text, .. } if text.contains('\n') && !text.starts_with("//"))
+                        && matches!((loc.start[*j], loc.end[*j]), (Some(s), Some(en)) if s < ls && ls <= en && en <= pos)
+                });
+                let msg = format!(
+                    "{} {text:?}: anchor says {}:{} but the text starts at {line}:{col} (character column)",
+                    kind.name(),
+                    a.dst_line,
+                    a.dst_column
+                );
+                if let Some((j, _)) = ml {
+                    let tail_chars = out[ls..loc.end[j].unwrap()].chars().count() as u32;
+                    if a.dst_column + tail_chars == col {
+                        v.known.get_or_insert((SIG_ML_COMMENT.into(), format!("{msg}; a block comment containing a newline ends on that line and the renderer restarted the column count at 0 after it")));
+                        continue;
+                    }
+                }
+                first_other.get_or_insert((format!("anchor:column-{}", kind.name()), msg));
+            }
+        }
+        if let Some(f) = first_other {
+            return Err(f);
+        }
+    }
+    Ok(v)
+}
+
+fn describe(case: &Case, out: &str) -> String {
+    format!(
+        "flavour={:?} opts={{max_width:{}, indent_width:{}, newline:{:?}, strip:{}}}\n--- doc ---\n{:?}\n--- rendered ---\n{}",
+        case.flavour, case.opts.max_width, case.opts.indent_width, case.opts.newline, case.opts.strip_trailing_whitespace, case.doc, out
+    )
+}
+
+fn evaluate(mut case: Case) -> Outcome {
+    let rendered = render_with_anchors(&case.doc, &case.opts);
+    // `render` (the formatter's entry point) must give the same text
+    let plain = render(&case.doc, &case.opts);
+    if plain != rendered.text {
+        return Outcome::fail(
+            "render-vs-render_with_anchors",
+            "render() and render_with_anchors() produced different text",
+            json!({"case": describe(&case, &rendered.text), "render": plain}),
+        );
+    }
+    let out = rendered.text.clone();
+    match decide(&mut case, &out, Some(&rendered.anchors)) {
+        Err((sig, msg)) => Outcome::fail(
+            sig,
+            msg,
+            json!({"case": describe(&case, &out), "anchors": rendered.anchors.iter().map(|a| json!([a.text.as_ref(), a.dst_line, a.dst_column])).collect::<Vec<_>>()}),
+        ),
+        Ok(v) => {
+            if let Some((sig, msg)) = v.known {
+                return Outcome::fail(sig, msg, json!({"case": describe(&case, &out)}));
+            }
+            let f = &case.feat;
+            let mut classes: Vec<String> = vec![format!("flavour_{:?}", case.flavour).to_lowercase()];
+            let mut flag = |on: bool, name: &str| {
+                if on {
+                    classes.push(name.to_string());
+                }
+            };
+            flag(v.broken_groups > 0, "group_broken");
+            flag(v.flat_groups > 0, "group_flat");
+            flag(v.ifbreak_present > 0, "ifbreak_present");
+            flag(v.ifbreak_absent > 0, "ifbreak_absent");
+            flag(v.anchors > 0, "anchors");
+            flag(v.anchors > 0 && f.multibyte, "anchors_with_multibyte_text");
+            flag(f.line_comment, "line_comment");
+            flag(f.block_comment, "block_comment");
+            flag(f.ml_comment, "multiline_block_comment");
+            flag(f.ml_token, "multiline_token");
+            flag(f.dedent_hardline, "dedent_hardline");
+            flag(f.force_flat, "force_flat");
+            flag(f.pad, "pad");
+            flag(f.if_flat_pad, "if_flat_pad");
+            flag(f.break_pad, "if_break_pad_probe");
+            flag(f.indented_comment, "comment_under_indent");
+            flag(f.depth >= 4, "depth_ge_4");
+            flag(case.opts.newline == "\r\n", "crlf");
+            flag(case.opts.strip_trailing_whitespace, "strip_trailing_ws");
+            flag(case.opts.strip_trailing_whitespace && v.anchors > 0, "strip_with_anchors");
+            flag(matches!(case.conts[0].broken, Some(true)), "root_broken");
+            let nt = v.broken_groups > 0 && v.flat_groups > 0;
+            Outcome::pass(hash_str(&describe(&case, &out)), nt, classes, describe(&case, &out))
+        }
+    }
+}
+
+pub fn run(ctx: &Ctx) {
+    let thorough = !ctx.is_quick();
+    let n = ctx.scale(1_500_000, 40_000_000);
+    // reproducers of listed findings / hand-written documents
+    ctx.run_payloads("explicit", |p| evaluate(explicit_case(p)));
+
+    ctx.run("doc", CaseCfg::cases(n).choices(1500).same_thread().shrink_iters(20_000), |d: &mut Draw| {
+        evaluate(gen_case(d, thorough))
+    });
+
+    ctx.assume("a ForceFlat region counts as a (flat) group of its own: break-only text directly inside it belongs to it, not to the group around it");
+    ctx.assume("a region is 'broken' iff a Line directly inside it rendered as a newline; every generated region carries such a witness Line between two plain texts");
+    ctx.assume("anchor columns are 1-based character columns (render.rs counts chars), lines are 1 + number of '\\n' before the text");
+    ctx.assume("documents are restricted to what the emitter/formatter helpers build: Indent only by +1, Line only as line()/softline(), Nil only as a whole child, DedentHardline only after an indent block (emitter), break-only text only in formatter documents, anchors only in emitter documents, comment text without trailing blanks, line comments on one line");
+    ctx.finish(
+        "exploration",
+        "Doc trees built like the emitter/formatter buffers build them (all 15 node kinds, nesting <= 8, unique atom texts incl. multi-byte and multi-line ones) x RenderOpts (max_width 0..140 and unbounded, indent 0..8, LF/CRLF, strip on/off); non-trivial = at least one Group whose witness Line broke and one whose witness stayed flat; distinct by hash of document + options",
+    );
 }
